@@ -8,6 +8,22 @@ ALL = ['C%02d' % i for i in range(1, 21)]
 
 # id -> (technique, level text, level note, design ref)
 CHECKS = {
+    'C03': (
+        'Hypothesis-generated attribute declarations x exhaustive attribute subsets against a set-based reference model',
+        'Random attribute uses (use, form, fixed/default, global refs to two namespaces, attribute group, wildcard constraint x '
+        'processContents) for both XSD versions; every subset of a 10-name pool (all 1024 in thorough) with valid / variant / '
+        'invalid values; is_valid() against the reference in both directions, and decoded attribute data against the '
+        'fixed/default/fill rules of the statement.',
+        'trusted: the 60-line reference in vf/checks/c03.py (uses_of/oracle/expected_data); all declared attributes are xs:int',
+        'DESIGN.md section 3 C03'),
+    'C07': (
+        'Hypothesis type hierarchies + exhaustive matrices against a derivation/blocking reference',
+        'Random hierarchies (extension/restriction chains, abstract, block on types/elements, blockDefault) with every type name '
+        'as xsi:type and 4 content variants; built-in simple chain x block; exhaustive substitution matrix (head block x abstract x '
+        'blockDefault x 9 children incl. second level and type-blocked); exhaustive nil/fixed/default matrix (4 types x nillable x '
+        'value constraint x 7 xsi:nil forms x content forms); XSD 1.1 type alternatives (ordered tests x attribute x content).',
+        'trusted: the reference functions in vf/checks/c07.py written from cvc-elt / Substitution Group OK; final never affects instances',
+        'DESIGN.md section 3 C07'),
     'C02': (
         'catalogue cross product + Hypothesis mutation and random restriction chains against an independent datatype reference',
         'All built-in atomic/list types of both XSD versions x a 260-entry boundary catalogue (exhaustive), Hypothesis '
